@@ -812,7 +812,7 @@ def metric_direction(kind, st):
     shared-speed: logit = metric w + rt + ..., the direction of progression is (1,..,1) in logit space and G o d is collinear
     to `metric`."""
     metric = _val(st["metric"]).double().reshape(-1)
-    if kind in ("logistic", "joint", "linear"):
+    if kind in ("logistic", "joint", "linear", "mixture_logistic"):
         return metric ** 2 * _val(st["v0"]).double().reshape(-1)
     if kind == "shared_speed_logistic":
         return metric
@@ -978,8 +978,10 @@ def eval_state(inp, collect=None):
     info.update({"ortho:" + k: v for k, v in i.items()})
     if collect is not None:
         collect(kind, m, st, inp)
-    if kind in KINDS_GAUGE:
-        f, i = recentre_failures(kind, m, st)
+    if kind in KINDS_STEP:
+        # the mixture model: its own copy of `_center_xi_realizations`, exercised ALONE (its compute_sufficient_statistics also
+        # centres the sources, which is not a gauge change: C10_mixture_sources_centring_refuted, `mixture_full_step_on_code`)
+        f, i = recentre_failures(kind, m, st, call=(type(m)._center_xi_realizations if kind in KINDS_MIXTURE else None))
         fails += f
         info.update(i)
         if not any(s.startswith(f"recentre:{kind}:raises") for s, *_ in f):
@@ -1027,7 +1029,8 @@ def shrink_state(inp, sig):
 STATE_CONFIGS = [("logistic", 1, None), ("logistic", 3, 0), ("logistic", 3, 2), ("logistic", 2, 1), ("logistic", 4, 3),
                  ("linear", 1, None), ("linear", 3, 0), ("linear", 3, 1), ("linear", 4, 2),
                  ("joint", 1, None), ("joint", 3, 1), ("joint", 3, 2),
-                 ("shared_speed_logistic", 3, 1), ("shared_speed_logistic", 4, 2), ("shared_speed_logistic", 2, 1)]
+                 ("shared_speed_logistic", 3, 1), ("shared_speed_logistic", 4, 2), ("shared_speed_logistic", 2, 1),
+                 ("mixture_logistic", 3, 1), ("mixture_logistic", 3, 2)]
 
 
 def search_states(run: Run, T, thorough: bool):
@@ -1065,17 +1068,17 @@ def search_states(run: Run, T, thorough: bool):
             fails, info = eval_state(inp, collect=(T.collect if want_t3 else None))
             src = bool(sd)
             m_shift = abs(info.get("mean_before", 0.0))
-            nontrivial = (kind in KINDS_GAUGE and m_shift > 1e-3) or (src and info.get("ortho:mixing-row-nontrivial", False))
+            nontrivial = (kind in KINDS_STEP and m_shift > 1e-3) or (src and info.get("ortho:mixing-row-nontrivial", False))
             run.case(("state", kind, nf, sd, json.dumps(inp["values"], sort_keys=True), json.dumps(cohort, sort_keys=True)), nontrivial=nontrivial)
             run.count("kind", f"{kind}/{'sources' if src else 'no-sources'}")
             run.count("style", style)
-            if kind in KINDS_GAUGE:
+            if kind in KINDS_STEP:
                 run.count("mean_xi_before", "0" if m_shift <= 1e-3 else ("<=1" if m_shift <= 1 else ">1"))
             for k in ("dev:model", "dev:nll_attach_ind", "dev:nll_attach_event_ind", "ortho:mixing-row", "ortho:space-shift"):
                 if k in info and info[k] == info[k] and info[k] != float("inf"):
                     run.extra.setdefault("max_observed", {})
                     run.extra["max_observed"][k] = max(run.extra["max_observed"].get(k, 0.0), info[k])
-            if len(run.samples) < 3 and src and kind in KINDS_GAUGE and r == 0:
+            if len(run.samples) < 3 and src and kind in KINDS_STEP and r == 0:
                 run.sample(dict(inp, observed=info))
             for sig, what, exp_v, obs in fails:
                 small = inp
@@ -1088,6 +1091,33 @@ def search_states(run: Run, T, thorough: bool):
                     else:
                         small = inp
                 run.fail(sig, what, small, expected=exp_v, observed=obs)
+
+
+def mixture_full_step_on_code(run: Run):
+    """C10_mixture_sources_centring_refuted replayed on the real mixture model: `_center_sources_realizations` alone moves the space
+    shifts and the trajectories (recorded; the mixture model is outside the property's quantifier, so this is no violation), while
+    `_center_xi_realizations` alone does not (that part is an oracle of `eval_state`)."""
+    import torch
+    rng = run.rng("mixture-full-step")
+    kind = KINDS_MIXTURE[0]
+    try:
+        m, ds, st = base_state(kind, 3, 1, n_ind=3, seed=3)
+        vals = random_values(st, rng, "plain", kind)
+        vals["sources"] = [[1.0], [3.0], [-0.5]]
+        put_values(st, vals)
+        w0, y0 = _val(st["space_shifts"]).double().clone(), _val(st["model"]).double().clone()
+        type(m)._center_sources_realizations(st)
+        w1, y1 = _val(st["space_shifts"]).double(), _val(st["model"]).double()
+        dw, dy = float((w1 - w0).abs().max()), float(torch.nan_to_num(y1 - y0).abs().max())
+        run.extra["mixture_full_step_on_code"] = dict(values={k: vals[k] for k in ("sources", "betas", "log_v0")},
+                                                      mean_sources_after=float(_val(st["sources"]).double().mean()),
+                                                      max_space_shift_change=dw, max_trajectory_change=dy,
+                                                      agrees_with_theorem=dw > 1e-3)
+        if not dw > 1e-3:
+            run.broken("correspondence:mixture-sources-centring", "the code's _center_sources_realizations leaves the space shifts unchanged on "
+                       f"sources = [1, 3, -0.5] (change {dw}); C10_mixture_sources_centring_refuted says they move", kind="broken-correspondence")
+    except Exception as e:
+        run.broken("correspondence:mixture-sources-centring", f"{type(e).__name__}: {e}", kind="broken-correspondence")
 
 
 # ============================================================================== T3: kernel-checked enclosures
@@ -1213,7 +1243,7 @@ class T3:
         if after:
             # the script: xi' = xi - mean xi, log_v0' = log_v0 + mean xi (joint: n_log_nu too), on the values read before
             b = self.before
-            if b is None or kind not in KINDS_GAUGE:
+            if b is None or kind not in KINDS_STEP:
                 return
             xs = _Rl(b["xi"])
             xi1 = _val(st["xi"]).reshape(-1)
@@ -1225,7 +1255,7 @@ class T3:
                 self.add(f"nth {k} (shift (mean {xs}) {_Rl(b[name])}) 0", v1[k], _tolq(float(v1[k]), 2e-6), what=f"script:{name}", **cfg)
             self.before = None
             return
-        if kind in KINDS_GAUGE:
+        if kind in KINDS_STEP:
             self.before = {n: _val(st[n]).reshape(-1).double().tolist() for n in ("xi", "log_v0") + (("n_log_nu",) if kind == "joint" else ())}
         tw = st["t"].weight if st["t"].weight is not None else torch.ones_like(st["t"].value)
         yw = st["y"].weight if st["y"].weight is not None else torch.ones_like(st["y"].value)
@@ -1239,7 +1269,7 @@ class T3:
                 k = self.rng.randrange(n_feat)
                 o = model[i, j, k]
                 self.add(self.app(traj, st, i, j, k), o, _tolq(float(o), 5e-6), what="trajectory", index=[i, j, k], **cfg)
-        if kind in KINDS_GAUGE:
+        if kind in KINDS_STEP:
             att = f"gen_{k_}_attach{sfx}"
             node = "nll_attach_y_ind" if kind == "joint" else "nll_attach_ind"
             nobs = [(int((yw[i] > 0).sum()), i) for i in range(n_ind)]
@@ -1284,7 +1314,7 @@ class T3:
                  what="space-shift", index=[i, c], **cfg)
 
     def prove(self):
-        names = sorted(self.sigs) + [f"gen_{SHORT[k]}_{x}" for k in KINDS_ORTHO for x in ("basis", "mixing", "space_shifts")] + ["gen_ortho_basis", "gen_ortho_basis_0d", "gen_ortho_basis_1d", "gen_ortho_basis_2d"]
+        names = sorted(self.sigs) + [f"gen_{SHORT[k]}_{x}" for k in KINDS_WIRING for x in ("basis", "mixing", "space_shifts")] + ["gen_ortho_basis", "gen_ortho_basis_0d", "gen_ortho_basis_1d", "gen_ortho_basis_2d"]
         hdr = T3_HEADER_TMPL.replace("GEN_NAMES", " ".join(dict.fromkeys(names))).replace("LIST_FUNS", LIST_FUNS)
         return self.run.interval_lemmas("t3", hdr, self.lemmas, "t3.", shard=max(12, len(self.lemmas) // (14 if self.thorough else 8) + 1))
 
@@ -1565,6 +1595,7 @@ def check(run: Run, tie: bool):
     search_branches(run, T, thorough)
     run.log("implementation: real states")
     search_states(run, T, thorough)
+    mixture_full_step_on_code(run)
     run.log("implementation: short real fits")
     search_fits(run, thorough)
     if T is not None:
